@@ -230,7 +230,8 @@ def build_harness(plugin, scratch, sanitize=False):
     objdir = os.path.join(scratch, 'obj_san' if sanitize else 'obj')
     os.makedirs(objdir, exist_ok=True)
     if sanitize:
-        flags = ['-O1', '-g', '-fsanitize=address,undefined', '-fno-sanitize-recover=all', '-UNDEBUG']
+        # asserts stay compiled out as in the baseline build: this pass looks for memory errors and undefined behaviour only
+        flags = ['-O1', '-g', '-fsanitize=address,undefined', '-fno-sanitize-recover=all', '-DNDEBUG']
     else:
         flags = ['-O3', '-DNDEBUG']
     flags += ['-std=c++17', '-D' + GUARD, '-I' + os.path.join(REPO, 'include'), '-I/usr/include/eigen3',
@@ -323,6 +324,50 @@ def run_parallel(exe, cases, jobs, hang_secs=20, env_extra=None):
             outs[j + k * jobs] = o
     return outs
 
+
+
+# ----------------------------------------------------------------------------- sanitizer pass (thorough tier)
+def sanitizer_pass(plugin, scratch, cases, impl, jobs, hang):
+    """Thorough tier: the same cases are replayed on an ASan+UBSan build (-O1, asserts compiled out as in the
+    baseline) of the harness and the anchored sources. An op that aborts there but produced data in the plain
+    build is a memory error / undefined behaviour inside the property's domain: reported as a failing input of
+    kind `sanitizer` (testing, like the rest of stage C). Values are NOT compared (-O1 vs -O3 may differ in ulps)."""
+    info = {'built': False, 'ops': 0, 'aborts': 0}
+    if getattr(plugin, 'NO_SANITIZE', False) or not getattr(plugin, 'HARNESS', None):
+        info['skipped'] = 'plugin opts out'
+        return [], info
+    t0 = time.time()
+    exe, err = build_harness(plugin, scratch, sanitize=True)
+    if exe is None:
+        info['build_error'] = err[-600:]
+        return [], info
+    info['built'] = True
+    env = {'ASAN_OPTIONS': 'abort_on_error=1:detect_leaks=0:allocator_may_return_null=1', 'UBSAN_OPTIONS': 'print_stacktrace=1'}
+    limit = getattr(plugin, 'SANITIZE_MAX_CASES', 4000)
+    sub = cases[:limit]
+    outs = run_parallel(exe, sub, jobs, max(hang * 5, 60), env)
+    fails = []
+    for ci, c in enumerate(sub):
+        for li, o in enumerate(outs[ci]):
+            info['ops'] += 1
+            if o == 'abort' and impl[ci][li] not in ('abort', 'hang', 'skipped'):
+                info['aborts'] += 1
+                if len(fails) < 5:
+                    # re-run the single case with stderr captured to get the sanitizer's report
+                    text = '#case 0\n%s\n' % '\n'.join(c['lines'])
+                    try:
+                        p = subprocess.run([exe], input=text, stdout=subprocess.PIPE, stderr=subprocess.PIPE, text=True,
+                                           env=dict(os.environ, VP_HANG_SECS=str(max(hang * 5, 60)), **env), timeout=600)
+                        rep = [l for l in p.stderr.split('\n') if l.strip()][:25]
+                    except Exception as e:
+                        rep = [repr(e)]
+                    head = next((l for l in rep if 'ERROR' in l or 'runtime error' in l), rep[0] if rep else '')
+                    fails.append({'kind': 'sanitizer', 'case_index': ci,
+                                  'detail': 'op %d (%s) aborts under ASan/UBSan: %s' % (li, c['lines'][li][:120], head[:300]),
+                                  'fields': {'op': c['lines'][li].split()[0], 'report': rep}})
+                break
+    info['wall_s'] = round(time.time() - t0, 1)
+    return fails, info
 
 # ----------------------------------------------------------------------------- known findings
 def load_known():
@@ -488,6 +533,11 @@ def run_check(plugin, pid, seed, tier, args, scratch, t_start):
             failures.append(f)
     if hasattr(plugin, 'extra_probe'):
         failures += plugin.extra_probe(ctx, stats) or []
+    if tier == 'thorough' and exe and not args.replay:
+        sfails, sinfo = sanitizer_pass(plugin, scratch, cases, impl, args.jobs, hang)
+        stats['sanitizer_pass'] = sinfo
+        failures += sfails
+        log('[%s] C sanitizer pass: %s' % (pid, json.dumps(sinfo)[:300]))
     # focused search around disagreeing inputs
     if (disagreements or not A['ok']) and hasattr(plugin, 'focused_cases') and not failures:
         extra = plugin.focused_cases(rng.fork(), [cases[d['case']] for d in disagreements[:20]], tier)
